@@ -294,6 +294,24 @@ func (b *WB) verify(m *Model, o VerifyOpts) error {
 			return err
 		}
 	}
+	// the resource registry: IDs obtained at the start stay the IDs of their types (asked by ID first,
+	// then by type in reverse order of registration, so that a registry that forgot them cannot
+	// rebuild the same numbering unnoticed)
+	nres := NumRes
+	if b.U.FullRes {
+		nres = ecs.MaskTotalBits
+	}
+	if got := len(ecs.ResourceIDs(w)); got != nres {
+		return fmt.Errorf("%s: Resources.registry: ResourceIDs lists %d resource types, %d were registered", b.Name, got, nres)
+	}
+	for k := NumRes - 1; k >= 0; k-- {
+		if tp, ok := ecs.ResourceType(w, b.ResIDs[k]); !ok || tp != ResType(k) {
+			return fmt.Errorf("%s: Resources.registry: ResourceType(id of resource %d) = %v,%v", b.Name, k, tp, ok)
+		}
+		if id := ecs.ResourceTypeID(w, ResType(k)); id != b.ResIDs[k] {
+			return fmt.Errorf("%s: Resources.registry: ResourceTypeID(type of resource %d) = %v, it was registered as %v", b.Name, k, id, b.ResIDs[k])
+		}
+	}
 	for k := 0; k < NumRes; k++ {
 		has := w.Resources().Has(b.ResIDs[k])
 		got := w.Resources().Get(b.ResIDs[k])
